@@ -31,6 +31,7 @@ type scenario struct {
 }
 
 type pubFrame struct {
+	asc   []byte // AudioSpecificConfig in force when an audio frame was published
 	video bool
 	key   bool
 	nals  [][]byte // video
@@ -171,6 +172,7 @@ type runCtx struct {
 	res      []result
 	joinV    int // number of video frames published before the consumers joined
 	joinA    int
+	curAsc   []byte
 	compared int // frames compared with their published counterpart (vacuity guard)
 }
 
@@ -194,7 +196,7 @@ func (x *runCtx) pubVideo(key bool, nals [][]byte, cts uint32) error {
 }
 
 func (x *runCtx) pubAudio(au []byte) error {
-	f := pubFrame{au: au, dts: x.ts, ev: x.nev}
+	f := pubFrame{au: au, dts: x.ts, ev: x.nev, asc: x.curAsc}
 	x.pubs = append(x.pubs, f)
 	return x.send(8, x.ts, audioMsg(x.sc.C.Audio, au))
 }
@@ -250,6 +252,37 @@ func (x *runCtx) event(shape string) error {
 			x.ts += 23
 		}
 		return nil
+	case "Ash2": // a new AAC sequence header with another AudioSpecificConfig (mid-stream change)
+		if a != "aac" && a != "aac48" {
+			return nil
+		}
+		if bytes.Equal(x.curAsc, ascAac) {
+			x.curAsc = ascAac48
+		} else {
+			x.curAsc = ascAac
+		}
+		return x.send(8, x.ts, append([]byte{0xaf, 0}, x.curAsc...))
+	case "Pall": // one inter frame for every residue of the TS packet payload size
+		for n := 100; n < 100+188; n++ {
+			if err := x.pubVideo(false, [][]byte{nal(v, trail, n, n)}, 0); err != nil {
+				return err
+			}
+			x.ts += 40
+		}
+		return nil
+	case "Aall":
+		for n := 1; n <= 190; n++ {
+			if err := x.pubAudio(append([]byte{byte(n), byte(n >> 8)}, body(n, n)...)); err != nil {
+				return err
+			}
+			x.ts += 23
+			if n%7 == 0 && v != "" { // a video frame now and then closes the audio PES at varying totals
+				if err := x.pubVideo(false, [][]byte{nal(v, trail, 30, n)}, 0); err != nil {
+					return err
+				}
+			}
+		}
+		return nil
 	case "J":
 		x.jump = true
 		return nil
@@ -265,6 +298,9 @@ func shapesFor(c codecs) []string {
 	}
 	if c.Audio != "" {
 		s = append(s, "A", "A1", "A3")
+	}
+	if c.Audio == "aac" || c.Audio == "aac48" {
+		s = append(s, "Ash2")
 	}
 	return append(s, "J")
 }
@@ -322,6 +358,7 @@ func run(sc scenario) (res []result, compared int, infra error) {
 		}
 	}
 	if sc.C.Audio == "aac" || sc.C.Audio == "aac48" {
+		x.curAsc = asc(sc.C.Audio)
 		if err := x.send(8, 0, append([]byte{0xaf, 0}, asc(sc.C.Audio)...)); err != nil {
 			return nil, 0, err
 		}
@@ -615,7 +652,10 @@ func (x *runCtx) checkTs(who string, b []byte, joinV, joinA int) {
 					break
 				}
 				// ADTS header consistent with the AudioSpecificConfig
-				c := asc(a)
+				c := f.asc
+				if c == nil {
+					c = asc(a)
+				}
 				aot := int(c[0] >> 3)
 				fi := int(c[0]&7)<<1 | int(c[1]>>7)
 				ch := int(c[1]>>3) & 0x0f
@@ -817,7 +857,7 @@ func main() {
 	r := vk.Start("C06", "model_checking")
 	lalenv.Quiet()
 	world.SyncQueues()
-	r.Rule("one case = (codec pair, frame-shape sequence after the prologue, join point of the TS / RTSP consumers); all sequences up to the length bound over the shape alphabet {K, Kp (in-band parameter sets), Kbig (70000-byte NAL), P1 (minimal NAL), Pb (3000 bytes, cts 80), Ps (SEI + slice, cts 40), P2 (two slices), A, A1 (1-byte frame), A3 (three frames at once), J (10 s timestamp jump)}; distinct_nontrivial = distinct (codec, sequence, join) cases that delivered at least one frame to a consumer")
+	r.Rule("one case = (codec pair, frame-shape sequence after the prologue, join point of the TS / RTSP consumers); all sequences up to the length bound over the shape alphabet {K, Kp (in-band parameter sets), Kbig (70000-byte NAL), P1 (minimal NAL), Pb (3000 bytes, cts 80), Ps (SEI + slice, cts 40), P2 (two slices), A, A1 (1-byte frame), A3 (three frames at once), Ash2 (AAC sequence header change), J (10 s timestamp jump)} plus the size sweeps Pall (188 inter frames of 100..287 bytes) and Aall (190 audio frames of 3..192 bytes); distinct_nontrivial = distinct (codec, sequence, join) cases that delivered at least one frame to a consumer")
 	r.Assume("NAL bodies contain no zero byte (no start-code emulation inside a NAL; RTMP carries escaped NALs)",
 		"HTTP-TS and RTSP consumers join at the same instant; HLS is checked on every segment ever written, in creation order (instrumented file system, cleanup off)",
 		"RTSP over interleaved TCP only (UDP delivery uses the same packets); Opus audio over RTMP is not driven",
@@ -865,6 +905,17 @@ func main() {
 			}
 		}
 		rec(nil)
+	}
+	// size sweeps: every residue of the TS packet payload size for video frames and audio PES totals
+	for _, c := range cs {
+		for _, sh := range []string{"Pall", "Aall"} {
+			if (sh == "Pall" && c.Video == "") || (sh == "Aall" && (c.Audio == "" || c.Audio == "g711a")) {
+				continue
+			}
+			for _, j := range []int{0, 1} {
+				cases = append(cases, scenario{C: c, Seq: []string{sh}, Join: j, Prolog: true})
+			}
+		}
 	}
 	r.Cov("cases_enumerated", len(cases))
 	r.Cov("max_sequence_length", maxLen)
